@@ -34,15 +34,22 @@ ASSUMPTIONS = [
     'regenerate-then-pass for DataFrames presupposes that parquet itself preserves the dtypes (harness frames use int64/float64/str columns, which do)',
     'the outcome of a normal-mode assertion whose reference is missing is not judged (only that nothing is written)',
 ]
-REQUIRED_MONITORS = ['steps:normal_mode_checked', 'steps:regenerating_checked', 'followup:fresh_process_pass',
+REQUIRED_MONITORS = ['steps:normal_mode_checked', 'steps:regenerating_checked', 'followup:fresh_process_pass', 'runs:pytest_driven',
                      'followup:same_process_pass', 'runs:forked', 'runs:argv_driven', 'runs:api_driven']
 REQUIRED_CLASSES = ['assert=string', 'assert=textfile', 'assert=textfiles', 'assert=binary', 'assert=df_parquet',
                     'assert=df_csv', 'assert=ondisk', 'mode=normal', 'mode=all', 'mode=kinds', 'ref=match', 'ref=differ',
-                    'ref=missing'] + ['spelling=%s' % s for s in ('-W', '--write-all', '--W', '-w', '--w', '--write')]
+                    'ref=missing'] + ['spelling=%s' % s for s in ('-W', '--write-all', '--W', '-w', '--w', '--write', 'pytest --write-all', 'pytest --write')]
 KINDS = [None, 'csv', 'table', 'graph', 'other', 'DEFAULT']
 TEXTS = ['one line\n', 'a\nb\nc\n', 'no final newline', '', 'crlf line\r\nsecond\r\n', 'Ünïcode 日本\nline2\n', '\n\nblank lines\n\n',
          'tabs\tand  spaces \n', 'x' * 300 + '\n']
 AUX = os.path.join(common.VERIF, 'vt', 'aux', 'c10_module.py')
+AUX_PYTEST = os.path.join(common.VERIF, 'vt', 'aux', 'c10_pytest', 'test_hist.py')
+
+
+def pytest_main():
+    import sys
+    import pytest
+    return int(pytest.main(sys.argv[1:]))
 
 
 def gen_step(rng, i):
@@ -65,7 +72,7 @@ def gen_step(rng, i):
 def gen_setting(rng, i):
     mode = ['normal', 'all', 'kinds'][i % 3]
     kinds = rng.sample(['csv', 'table', 'graph', 'other'], rng.randint(1, 2)) if mode == 'kinds' else []
-    via = 'argv' if (i // 3) % 2 else 'api'
+    via = ['api', 'argv', 'api', 'argv', 'api', 'pytest'][(i // 3) % 6]
     s = {'mode': mode, 'kinds': kinds, 'via': via, 'argv': [], 'spelling': None}
     if via == 'argv':
         pre = [f for f in ('-v', '-1', '--wquiet') if rng.random() < 0.25]
@@ -84,6 +91,15 @@ def gen_setting(rng, i):
             sp = None
             argv = [a for a in pre if not a.startswith('--')] + [a for a in pre if a.startswith('--')]
         s['argv'], s['spelling'] = argv, sp
+    if via == 'pytest':
+        pre = [f for f in ('-v', '--wquiet', '-s') if rng.random() < 0.25]
+        if mode == 'all':
+            s['argv'], s['spelling'] = pre + ['--write-all'], 'pytest --write-all'
+        elif mode == 'kinds':
+            s['argv'] = pre + ['--write'] + ([','.join(kinds)] if rng.random() < 0.5 else list(kinds))
+            s['spelling'] = 'pytest --write'
+        else:
+            s['argv'], s['spelling'] = pre, None
     return s
 
 
@@ -162,6 +178,16 @@ def run_history(ctx, case, setting, refdir, workdir, tag):
         env.update({'VT_HIST': hp, 'VT_REFDIR': refdir, 'VT_WORKDIR': workdir, 'VT_STEPLOG': logpath})
         res = forkserver.fork_run(AUX, [AUX] + list(setting['argv']), cwd=workdir, env=env, scratch=ctx.scratch)
         ctx.rec.event('runs:argv_driven')
+    elif setting['via'] == 'pytest':
+        hp = os.path.join(ctx.scratch, 'c10_hist.json')
+        with open(hp, 'w') as f:
+            json.dump(hist, f)
+        env.update({'VT_HIST': hp, 'VT_REFDIR': refdir, 'VT_WORKDIR': workdir, 'VT_STEPLOG': logpath,
+                    'PYTEST_DISABLE_PLUGIN_AUTOLOAD': '1'})      # only tdda's plugin (via conftest.py) matters here
+        forkserver.warm(extra=('pytest', '_pytest.config', '_pytest.main', '_pytest.python', 'tdda.referencetest.pytestconfig'))
+        res = forkserver.fork_run(pytest_main, ['pytest', '-q', '-p', 'no:cacheprovider', AUX_PYTEST] + list(setting['argv']),
+                                  cwd=os.path.dirname(AUX_PYTEST), env=env, scratch=ctx.scratch)
+        ctx.rec.event('runs:pytest_driven')
     else:
         from vt.aux import c10_steps
         res = forkserver.fork_run(lambda: c10_steps.run_history(hist, refdir, workdir, logpath, setting),
@@ -195,7 +221,7 @@ def run_case(ctx, case):
         return
     by_i = {e['i']: e for e in log}
     steps = {st['i']: st for st in case['steps']}
-    if setting['via'] == 'argv' and set(by_i) != set(steps):
+    if setting['via'] in ('argv', 'pytest') and set(by_i) != set(steps):
         rec.violation('argv_changed_which_tests_ran', {'case': case, 'mech': {'spelling': setting['spelling'], 'argv0': (setting['argv'] or [None])[0]},
                                                       'facts': {'ran': sorted(by_i), 'steps': sorted(steps), 'argv': setting['argv'], 'stderr': res.err[-500:]}})
         return
